@@ -55,7 +55,9 @@ func flagValue(v ssa.Value, s flagState) (val, known bool) {
 	return b, ok
 }
 
-func isBool(v ssa.Value) bool { return isNumericOrBool(v.Type()) && strings.Contains(v.Type().Underlying().String(), "bool") }
+func isBool(v ssa.Value) bool {
+	return isNumericOrBool(v.Type()) && strings.Contains(v.Type().Underlying().String(), "bool")
+}
 
 // enter computes the state after taking the edge pred -> b.
 func enter(pred, b *ssa.BasicBlock, s flagState) flagState {
